@@ -3496,6 +3496,10 @@ class DecVar(Vars):
 
     def evtadapt(self, scens):
 
+        if self.dro_model.var_ev_list is not None:
+            raise SyntaxError('Adaptation must be defined ' +
+                              'before the model is formulated.')
+
         if isinstance(scens, Scen):
             events = scens.series
         else:
@@ -3690,6 +3694,9 @@ class DecVarSub(VarSub):
             raise ValueError('No affine adaptation for integer variables.')
         if self.dro_model is not rvars.model.top:
             raise ValueError('Model mismatch.')
+        if self.dro_model.var_ev_list is not None:
+            raise SyntaxError('Adaptation must be defined ' +
+                              'before the model is formulated.')
 
         self.fixed = False
         if self.rand_adapt is None:
